@@ -43,6 +43,12 @@ func (w *tw) nodes(ns []Node, depth int) {
 			w.loop(n.Loop, depth)
 		case n.Probe != nil:
 			w.probe(n.Probe)
+		case n.Boom != nil:
+			if strings.HasPrefix(*n.Boom, "\x00") {
+				w.sb.WriteString("end({{ u0 }},{{ boomlast() }})")
+			} else {
+				w.sb.WriteString("zz({{ " + *n.Boom + " }},{{ boom(" + *n.Boom + ") }})")
+			}
 		case n.Pre != nil:
 			// no layout white space inside <pre>: every blank there is content
 			saved := w.pretty
